@@ -21,10 +21,24 @@
    recursion on the schema (the guard checker unfolds [covers_obj]).  The
    soundness proof has one lemma per part.
 
-   Soundness theorem: CoversProofs.covers_sound (Props/C02.v).  Two conditions
+   Targets: a type id; the members of a struct variant ([TProps]); the elements
+   of a tuple variant ([TTuple]).
+
+   What is understood (everything else is [false]): scalars with integer ranges
+   and formats, constrained strings, native string formats, string enums, typed
+   enums of scalars (newtype + CEnum), Vec/Set/fixed arrays/tuples, maps with
+   String keys, structs (required/optional/default members, deny_unknown_fields,
+   one flattened map), Option (null in "type", or a null branch of a union),
+   Box/plain newtype/serde_json::Value, "$ref" (assumed pairs), anyOf/oneOf
+   against untagged / externally / internally / adjacently tagged enums, allOf
+   with one conjunct, allOf of object schemas against an open struct.
+
+   Soundness theorem: CoversProofs.covers_sound (Props/C02.v).  Conditions that
    are there because the proof needed them: "type" next to a "$ref" is NOT used
-   for the vacuity test (draft-07 ignores the siblings of "$ref"), and the wire
-   names of a struct's members must be pairwise distinct ([nodup_ustr]). *)
+   for the vacuity test (draft-07 ignores the siblings of "$ref"); the wire
+   names of a struct's members must be pairwise distinct ([nodup_ustr]); a
+   branch of an internally tagged enum must say "type":"object" whatever its tag
+   enum lists; the instance domain [in_dom] asks for distinct member names. *)
 From Coq Require Import String ZArith NArith QArith List Bool.
 From Typify Require Import Base.Json Spec.Schema Spec.Valid IR.TypeIR IR.Serde.
 Import ListNotations.
